@@ -10,6 +10,7 @@ import SecpZkp.Gen.F_ellswift
 import SecpZkp.Gen.F_generator
 import SecpZkp.Gen.P_ecdsa
 import SecpZkp.Gen.P_schnorr
+import SecpZkp.Gen.P_keys
 import SecpZkp.Gen.K_int128struct
 /-
   `k_run <set>.<def> <in>* / <out>*` : executes a translated C function (MiniC IR regenerated from the
@@ -107,7 +108,8 @@ def hFRun : Handler
   `p_run Pschnorr.verify sig64 msg pubkey`           -> ret i<illegal callbacks>
 -/
 def pTable : List (String × AlgIR.Fn) :=
-  (Gen.Pecdsa.all.map fun p => ("Pecdsa." ++ p.1, p.2)) ++ (Gen.Pschnorr.all.map fun p => ("Pschnorr." ++ p.1, p.2))
+  (Gen.Pecdsa.all.map fun p => ("Pecdsa." ++ p.1, p.2)) ++ (Gen.Pschnorr.all.map fun p => ("Pschnorr." ++ p.1, p.2)) ++
+  (Gen.Pkeys.all.map fun p => ("Pkeys." ++ p.1, p.2))
 
 def scArg (st : AlgIR.State) (name tok : String) : Option AlgIR.State := do
   let b ← hexN? 32 tok
@@ -133,6 +135,24 @@ def hPRun : Handler
       let o := AlgIR.execL { st with ints := st.ints.set "recid" 0 rc } fn.body
       let ret := o.ints.get "ret" 0
       some (join [showHex ret, if ret ≠ 0 then showPt (o.ptGet "pubkey") else "-"])
+    | f, [k, t] =>      -- Pkeys.ec_seckey_tweak_add/mul (key32 tweak32 -> ret key32), Pkeys.ec_pubkey_tweak_add/mul (pubkey tweak32 -> ret pubkey i<n>)
+      if f == "Pkeys.ec_seckey_tweak_add" || f == "Pkeys.ec_seckey_tweak_mul" then do
+        let kb ← hexN? 32 k; let tb ← hexN? 32 t
+        let o := AlgIR.execL { bs := [("seckey", kb), ("tweak32", tb)] } fn.body
+        some (join [showHex (o.ints.get "ret" 0), hx (o.byGet "seckey")])
+      else if f == "Pkeys.ec_pubkey_tweak_add" || f == "Pkeys.ec_pubkey_tweak_mul" then do
+        let q ← pt? k; let tb ← hexN? 32 t
+        let o := AlgIR.execL { pt := [("pubkey", q)], bs := [("tweak32", tb)] } fn.body
+        some (join [showHex (o.ints.get "ret" 0), showPt (o.ptGet "pubkey"), "i" ++ toString (o.ints.get "illegal" 0)])
+      else none
+    | "Pkeys.ec_seckey_negate", [k] =>
+      let kb ← hexN? 32 k
+      let o := AlgIR.execL { bs := [("seckey", kb)] } fn.body
+      some (join [showHex (o.ints.get "ret" 0), hx (o.byGet "seckey")])
+    | "Pkeys.ec_pubkey_negate", [k] =>
+      let q ← pt? k
+      let o := AlgIR.execL { pt := [("pubkey", q)] } fn.body
+      some (join [showHex (o.ints.get "ret" 0), showPt (o.ptGet "pubkey"), "i" ++ toString (o.ints.get "illegal" 0)])
     | "Pschnorr.verify", [sig, msg, pk] =>      -- sig64 (64 bytes), message (any length, `-` empty), x-only key object (point token, Z = all-zero object)
       let sg ← hexN? 64 sig; let mg ← hex? msg; let q ← pt? pk
       let st : AlgIR.State := { bs := [("sig64@0", sg.take 32), ("sig64@32", sg.drop 32), ("msg", mg)], pt := [("pubkey", q)] }
